@@ -907,6 +907,10 @@ func genOneOnOne(r *rand.Rand, id string, size int, total int) []string {
 	} else {
 		g.add("tone %d %d %s %s", a, b, pay(), pay())
 	}
+	if g.pick(2) == 0 {
+		// a third peer publishes on the pairwise topic
+		g.lines[len(g.lines)-1] += " third=" + hx(g.value())
+	}
 	return g.lines
 }
 
